@@ -65,6 +65,25 @@ func isPrefix(sub []int) bool {
 	return true
 }
 
+// listFor gives party `self` its own way of writing down the signer set S (callers are free to list the signers in
+// any order, and need not agree on it): mode 0 as given (sorted), 1 reversed, 2 the party itself first.
+func listFor(S []party.ID, self party.ID, mode int) []party.ID {
+	out := append([]party.ID{}, S...)
+	switch mode % 3 {
+	case 1:
+		for i, j := 0, len(out)-1; i < j; i, j = i+1, j-1 {
+			out[i], out[j] = out[j], out[i]
+		}
+	case 2:
+		for i, id := range out {
+			if id == self {
+				out[0], out[i] = out[i], out[0]
+			}
+		}
+	}
+	return out
+}
+
 func pickIDs(ids []party.ID, sub []int) []party.ID {
 	out := make([]party.ID, len(sub))
 	for i, j := range sub {
@@ -288,10 +307,12 @@ func c01Frost(t *vk.T, n, th int, taproot bool, rep int, env vk.Env) {
 			sname, sched := pickSched(r, S)
 			tag := fmt.Sprintf("%s n=%d t=%d S=%q material=%s digest=%s sched=%s", path, n, th, S, m.kind, dclass, sname)
 			var start func(id party.ID) protocol.StartFunc
+			mode := c
+			tag += fmt.Sprintf(" signer-list-order=%d", mode%3)
 			if taproot {
-				start = func(id party.ID) protocol.StartFunc { return frost.SignTaproot(m.tp[id], S, msg) }
+				start = func(id party.ID) protocol.StartFunc { return frost.SignTaproot(m.tp[id], listFor(S, id, mode), msg) }
 			} else {
-				start = func(id party.ID) protocol.StartFunc { return frost.Sign(m.f[id], S, msg) }
+				start = func(id party.ID) protocol.StartFunc { return frost.Sign(m.f[id], listFor(S, id, mode), msg) }
 			}
 			net, outs, err := fx.RunMulti(r, S, start, fx.Opt{Sched: sched, SessionID: r.Bytes(4)})
 			if err != nil {
@@ -441,9 +462,9 @@ func c01CMP(t *vk.T, n, th int, path, mat string, i int, env vk.Env) {
 		var err error
 		switch path {
 		case "sign":
-			_, outs, err = fx.RunMulti(r, S, func(id party.ID) protocol.StartFunc { return cmp.Sign(cfgs[id], S, msg, nil) }, fx.Opt{Sched: sched, SessionID: r.Bytes(4)})
+			_, outs, err = fx.RunMulti(r, S, func(id party.ID) protocol.StartFunc { return cmp.Sign(cfgs[id], listFor(S, id, i+c), msg, nil) }, fx.Opt{Sched: sched, SessionID: r.Bytes(4)})
 		case "full":
-			_, outs, err = fx.RunMulti(r, S, func(id party.ID) protocol.StartFunc { return presign.StartPresign(cfgs[id], S, msg, nil) }, fx.Opt{Sched: sched, SessionID: r.Bytes(4)})
+			_, outs, err = fx.RunMulti(r, S, func(id party.ID) protocol.StartFunc { return presign.StartPresign(cfgs[id], listFor(S, id, i+c), msg, nil) }, fx.Opt{Sched: sched, SessionID: r.Bytes(4)})
 		case "presign+online":
 			var pouts []fx.Outcome
 			_, pouts, err = fx.RunMulti(r, S, func(id party.ID) protocol.StartFunc { return cmp.Presign(cfgs[id], S, nil) }, fx.Opt{Sched: sched, SessionID: r.Bytes(4)})
